@@ -48,6 +48,7 @@ def chain_job(a):
 def _chain_job(a):
     from hl7apy.core import Message
     m = Message(a['structure'], version=a['version'])
+    m.msh.msh_7 = '20200101'       # Message() stamps MSH-7 with now(): two messages built at different instants are compared below
     m.msh.msh_9 = 'ADT^A01'
     base = snapshot(m)
     names = [g.lower() for g in a['groups']] + [a['segment'].lower(), a['field'].lower()]
@@ -89,6 +90,7 @@ def _chain_job(a):
         depth, v = a['valuewrite']
         depth = max(1, min(depth, len(names)))
         m2 = Message(a['structure'], version=a['version'])
+        m2.msh.msh_7 = '20200101'
         m2.msh.msh_9 = 'ADT^A01'
 
         def nav2(upto):
